@@ -205,16 +205,19 @@ class GraphQLError(Exception):
 
         # Preserve the traceback of an explicit original error. The traceback of
         # a cause is not copied over, since Python already reports cause chains.
-        if original_error:
+        if original_error is not None:
             self.__traceback__ = original_error.__traceback__
-            if not self.__cause__:
-                if original_error.__cause__:
+            if self.__cause__ is None:
+                if original_error.__cause__ is not None:
                     self.__cause__ = original_error.__cause__
-                elif original_error.__context__:
+                elif original_error.__context__ is not None:
                     self.__context__ = original_error.__context__
 
         if extensions is None and underlying_error is not None:
-            original_extensions = getattr(underlying_error, "extensions", None)
+            try:
+                original_extensions = getattr(underlying_error, "extensions", None)
+            except Exception:  # noqa: BLE001
+                original_extensions = None
             if isinstance(original_extensions, dict):
                 extensions = original_extensions
         self.extensions = extensions or {}
